@@ -1096,6 +1096,8 @@ mod real {
     use std::sync::mpsc;
     use std::time::{Duration, Instant};
 
+    /// number of threads of this process (the harness's pool threads all exist before the first case
+    /// starts: util::run_cases holds them at a barrier, so the base line of the census is stable)
     fn tasks() -> usize {
         std::fs::read_dir("/proc/self/task").map(|d| d.count()).unwrap_or(0)
     }
@@ -1114,19 +1116,25 @@ mod real {
         let mut outcomes = std::collections::BTreeMap::new();
         let mut max_threads = 0usize;
         let mut verdict = String::from("ok");
+        let mut max_over = 0usize;
         for _ in 0..repeat {
+            // workers of the previous repetition may still be on their way out: they are part of this
+            // repetition's base line (the peak above it can then only be under-estimated, never over-)
+            let base_rep = tasks();
             let (tx, rx) = mpsc::channel();
             let (k, i, d) = (kind.clone(), input.clone(), dropa.clone());
-            std::thread::spawn(move || {
+            std::thread::Builder::new().name("lzv-runner".into()).spawn(move || {
                 let r = one(&k, workers, &i, &d);
                 let _ = tx.send(r);
-            });
+            }).unwrap();
             let t0 = Instant::now();
             let res = loop {
                 match rx.recv_timeout(Duration::from_millis(5)) {
                     Ok(r) => break Some(r),
                     Err(_) => {
-                        max_threads = max_threads.max(tasks());
+                        let now = tasks();
+                        max_threads = max_threads.max(now);
+                        max_over = max_over.max(now.saturating_sub(base_rep + 1));
                         if t0.elapsed() > Duration::from_secs(600) {
                             break None;
                         }
@@ -1146,6 +1154,10 @@ mod real {
                     break;
                 }
             }
+        }
+        if std::env::var("LZVERIF_SELFTEST_LEAK").is_ok() {
+            // self-test of the census: an unnamed thread that never exits
+            std::thread::spawn(|| std::thread::sleep(Duration::from_secs(3600)));
         }
         // released workers need to be scheduled to exit: wait up to 20 s (loaded machine) for the
         // census to come back to where it started
@@ -1176,8 +1188,8 @@ mod real {
         // threads of this process while running: harness pool + runner + workers; never more workers
         // than the caller allowed (the crate clamps the request into 1..=256)
         let limit = (workers as usize).clamp(1, 256);
-        if verdict == "ok" && max_threads > before + 1 + limit {
-            verdict = format!("FAIL {} threads ran at the same time on top of the harness's own, the limit was {} workers", max_threads - before - 1, limit);
+        if verdict == "ok" && max_over > limit {
+            verdict = format!("FAIL {} threads ran at the same time on top of those alive when the call started, the limit was {} workers", max_over, limit);
         }
         let o = outcomes.iter().map(|(k, v)| format!("{}x{}", k, v)).collect::<Vec<_>>().join(",");
         (format!("REAL {} leaked={}", o, after.saturating_sub(before)), verdict)
